@@ -30,17 +30,17 @@ WatchOps(lsts, flts) ==
   {[op |-> o, lst |-> l, flt |-> f] : o \in {"watch", "unwatch"}, l \in lsts, f \in flts}
 
 Q_Match  == [F2 |-> {"s1"}, ALL |-> {"s1", "s2"}]
-Q_Cfg    == [srcs |-> <<"a1">>, svcs |-> <<"s1", "s2">>, lsts |-> <<"L1", "L2">>, maxId |-> 3, timerPhase |-> FALSE,
-             watch0 |-> [L1 |-> {"ALL"}, L2 |-> {"F2"}]]
+Q_Cfg    == [srcs |-> <<"a1">>, svcs |-> <<"s1", "s2">>, lsts |-> <<"L1", "L2">>,
+             watch0 |-> [L1 |-> {"ALL"}, L2 |-> {"F2"}]] @@ CfgDefault
 Q_Inputs == InputsOf({"a1"}, {"s1", "s2"}, {0, 1, 2, FOREVER})
 
-T_Cfg    == [srcs |-> <<"a1", "a2">>, svcs |-> <<"s1", "s2">>, lsts |-> <<"L1", "L2">>, maxId |-> 3, timerPhase |-> FALSE,
-             watch0 |-> [L1 |-> {"ALL"}, L2 |-> {}]]
+T_Cfg    == [srcs |-> <<"a1", "a2">>, svcs |-> <<"s1", "s2">>, lsts |-> <<"L1", "L2">>,
+             watch0 |-> [L1 |-> {"ALL"}, L2 |-> {}]] @@ CfgDefault
 T_Inputs == InputsOf({"a1", "a2"}, {"s1", "s2"}, {0, 1, 2, FOREVER})
               \cup WatchOps({"L2"}, {"F2"}) \cup {[op |-> "connlost"]}
 
-W_Cfg    == [srcs |-> <<"a1">>, svcs |-> <<"s1">>, lsts |-> <<"L1", "L2">>, maxId |-> 3, timerPhase |-> FALSE,
-             watch0 |-> [L1 |-> {"ALL"}, L2 |-> {}]]
+W_Cfg    == [srcs |-> <<"a1">>, svcs |-> <<"s1">>, lsts |-> <<"L1", "L2">>,
+             watch0 |-> [L1 |-> {"ALL"}, L2 |-> {}]] @@ CfgDefault
 W_Inputs == InputsOf({"a1"}, {"s1"}, {0, 2, FOREVER}) \cup WatchOps({"L1"}, {"ALL"}) \cup WatchOps({"L2"}, {"F2"})
 
 NoSw == AllOff
